@@ -17,6 +17,8 @@ type fieldEvent struct {
 	// Derived: the access happens (at any depth) inside a helper that computes derived
 	// information (Type, Sig, Operands, Succs, AssignIDs): it is not part of the printed text
 	Derived bool
+	// NilTest: the access is an operand of a comparison with nil (a presence test, not output)
+	NilTest bool
 	Via    string    // for indirect accesses: the function in which the field is touched
 	Panic  bool      // the access occurs inside the argument of a panic(...) call (diagnostics only)
 }
@@ -145,6 +147,18 @@ func (c *Ctx) subjectFieldsRec(fn *types.Func, subj int, visiting map[subjKey]bo
 		return false
 	}
 	var events []fieldEvent
+	nilTests := map[ast.Expr]bool{}
+	ast.Inspect(fd.Body, func(n ast.Node) bool {
+		if be, ok := n.(*ast.BinaryExpr); ok && (be.Op == token.EQL || be.Op == token.NEQ) {
+			if id, ok := unparen(be.Y).(*ast.Ident); ok && id.Name == "nil" {
+				nilTests[unparen(be.X)] = true
+			}
+			if id, ok := unparen(be.X).(*ast.Ident); ok && id.Name == "nil" {
+				nilTests[unparen(be.Y)] = true
+			}
+		}
+		return true
+	})
 	stringFn := func() *types.Func {
 		if n := namedOf(subjVar.Type()); n != nil {
 			m, _, _ := types.LookupFieldOrMethod(types.NewPointer(n), true, n.Obj().Pkg(), "String")
@@ -177,7 +191,7 @@ func (c *Ctx) subjectFieldsRec(fn *types.Func, subj int, visiting map[subjKey]bo
 			idx := sel.Index()
 			switch sel.Kind() {
 			case types.FieldVal:
-				events = append(events, fieldEvent{Field: st.Field(idx[0]).Name(), Pos: n.Pos(), Direct: true, Write: written[n], Panic: inPanic(n.Pos())})
+				events = append(events, fieldEvent{Field: st.Field(idx[0]).Name(), Pos: n.Pos(), Direct: true, Write: written[n], Panic: inPanic(n.Pos()), NilTest: nilTests[ast.Expr(n)]})
 			case types.MethodVal:
 				if len(idx) > 1 {
 					// promoted method: reads the embedded field
